@@ -44,10 +44,11 @@ Record tst := mkT {
   pack_disorder : bool;               (* acks of a source not 1,2,3,... from its resume position *)
   pack_closed : bool;                 (* ack delivered to a source plugin that is not open (after its Teardown) *)
   lifecycle_bad : bool;               (* double Open / Teardown without Open *)
-  ntd : list (conn * nat)             (* teardown count per connector, as an association list *)
+  ntd : list (conn * nat);            (* teardown count per connector, as an association list *)
+  fnil : bool                         (* a force stop returned nil and no status was written since *)
 }.
 
-Definition t0 : tst := mkT [] [] [] [] [] [] [] [] [] false false false false false false false [].
+Definition t0 : tst := mkT [] [] [] [] [] [] [] [] [] false false false false false false false [] false.
 
 Definition is_open (c : conn) (t : tst) : bool := mem conn_eqb c (opened t).
 
@@ -78,115 +79,7 @@ Fixpoint bump_td (c : conn) (l : list (conn * nat)) : list (conn * nat) :=
 Definition set_bad (b : bool) (t : tst) : tst :=
   mkT (opened t) (lastread t) (lastpack t) (stored t) (dpend t) (qpend t) (dok t) (qok t) (wrote t)
       (forced t) (graceful t) (bad t || b) (pack_unhandled t) (pack_disorder t) (pack_closed t)
-      (lifecycle_bad t) (ntd t).
-
-Definition tstep (ndst : nat) (t : tst) (e : ev) : tst :=
-  match e with
-  | ERead s k =>
-      (* logged by the plugin just before the hand-off; a failed hand-off is taken back by EUnread *)
-      let ok := Nat.eqb k (S (lookup s (lastread t))) in
-      set_bad (negb ok)
-        (mkT (opened t) (update s k (lastread t)) (lastpack t) (stored t) (dpend t) (qpend t) (dok t) (qok t)
-             (wrote t) (forced t) (graceful t) (bad t) (pack_unhandled t) (pack_disorder t) (pack_closed t)
-             (lifecycle_bad t) (ntd t))
-  | EUnread s k =>
-      set_bad (negb (Nat.eqb k (lookup s (lastread t))) || Nat.eqb k 0)
-        (mkT (opened t) (update s (pred k) (lastread t)) (lastpack t) (stored t) (dpend t) (qpend t) (dok t) (qok t)
-             (wrote t) (forced t) (graceful t) (bad t) (pack_unhandled t) (pack_disorder t) (pack_closed t)
-             (lifecycle_bad t) (ntd t))
-  | EDWrite d s k =>
-      let ok := is_open (CDst d) t && Nat.leb k (lookup s (lastread t)) && Nat.ltb 0 k in
-      set_bad (negb ok)
-        (mkT (opened t) (lastread t) (lastpack t) (stored t) (dpend t ++ [(d, s, k)]) (qpend t) (dok t) (qok t)
-             ((s, k) :: wrote t) (forced t) (graceful t) (bad t) (pack_unhandled t) (pack_disorder t) (pack_closed t)
-             (lifecycle_bad t) (ntd t))
-  | EDConf d s k b =>
-      (* a destination answers its writes in the order it received them *)
-      let ok := opt3_eqb (first_of_d d (dpend t)) (d, s, k) in
-      set_bad (negb ok)
-        (mkT (opened t) (lastread t) (lastpack t) (stored t) (remove1 p3_eqb (d, s, k) (dpend t)) (qpend t)
-             (if b then (d, s, k) :: dok t else dok t) (qok t)
-             (wrote t) (forced t) (graceful t) (bad t) (pack_unhandled t) (pack_disorder t) (pack_closed t)
-             (lifecycle_bad t) (ntd t))
-  | EDUnconf d s k =>
-      mkT (opened t) (lastread t) (lastpack t) (stored t) (dpend t) (qpend t)
-          (remove1 p3_eqb (d, s, k) (dok t)) (qok t)
-          (wrote t) (forced t) (graceful t) (bad t) (pack_unhandled t) (pack_disorder t) (pack_closed t)
-          (lifecycle_bad t) (ntd t)
-  | EQWrite q s k =>
-      let ok := is_open (CDlq q) t && Nat.leb k (lookup s (lastread t)) && Nat.ltb 0 k in
-      set_bad (negb ok)
-        (mkT (opened t) (lastread t) (lastpack t) (stored t) (dpend t) (qpend t ++ [(q, s, k)]) (dok t) (qok t)
-             ((s, k) :: wrote t) (forced t) (graceful t) (bad t) (pack_unhandled t) (pack_disorder t) (pack_closed t)
-             (lifecycle_bad t) (ntd t))
-  | EQConf q s k b =>
-      let ok := opt3_eqb (first_of_d q (qpend t)) (q, s, k) in
-      set_bad (negb ok)
-        (mkT (opened t) (lastread t) (lastpack t) (stored t) (dpend t) (remove1 p3_eqb (q, s, k) (qpend t))
-             (dok t) (if b then (s, k) :: qok t else qok t)
-             (wrote t) (forced t) (graceful t) (bad t) (pack_unhandled t) (pack_disorder t) (pack_closed t)
-             (lifecycle_bad t) (ntd t))
-  | EQUnconf q s k =>
-      mkT (opened t) (lastread t) (lastpack t) (stored t) (dpend t) (qpend t) (dok t)
-          (remove1 p2_eqb (s, k) (qok t))
-          (wrote t) (forced t) (graceful t) (bad t) (pack_unhandled t) (pack_disorder t) (pack_closed t)
-          (lifecycle_bad t) (ntd t)
-  | EPack s k =>
-      (* C02: the position is durable before the plugin hears about it *)
-      let okacc := Nat.leb k (lookup s (stored t)) in
-      set_bad (negb okacc)
-        (mkT (opened t) (lastread t) (update s k (lastpack t)) (stored t) (dpend t) (qpend t) (dok t) (qok t)
-             (wrote t) (forced t) (graceful t) (bad t)
-             (pack_unhandled t || negb (handled ndst t s k))
-             (pack_disorder t || negb (Nat.eqb k (S (lookup s (lastpack t)))))
-             (pack_closed t || negb (is_open (CSrc s) t))
-             (lifecycle_bad t) (ntd t))
-  | ECommit snap =>
-      (* positions only move forward, and only onto handled records *)
-      let ok := snap_ge snap (stored t) &&
-                forallb (fun p => Nat.eqb (snd p) 0 || handled ndst t (fst p) (snd p)) snap in
-      set_bad (negb ok)
-        (mkT (opened t) (lastread t) (lastpack t) snap (dpend t) (qpend t) (dok t) (qok t)
-             (wrote t) (forced t) (graceful t) (bad t) (pack_unhandled t) (pack_disorder t) (pack_closed t)
-             (lifecycle_bad t) (ntd t))
-  | EOpen c pos =>
-      (* a processor that runs with several workers is opened once per worker *)
-      let dup := match c with CProc _ _ => false | _ => is_open c t end in
-      let okpos := match c with CSrc s => Nat.eqb pos (lookup s (stored t)) | _ => true end in
-      set_bad (negb okpos)
-        (mkT (c :: opened t)
-             (match c with CSrc s => update s pos (lastread t) | _ => lastread t end)
-             (match c with CSrc s => update s pos (lastpack t) | _ => lastpack t end)
-             (stored t)
-             (match c with CDst d => filter (fun x => negb (Nat.eqb (fst (fst x)) d)) (dpend t) | _ => dpend t end)
-             (match c with CDlq q => filter (fun x => negb (Nat.eqb (fst (fst x)) q)) (qpend t) | _ => qpend t end)
-             (dok t) (qok t) (wrote t) (forced t) (graceful t) (bad t)
-             (pack_unhandled t) (pack_disorder t) (pack_closed t) (lifecycle_bad t || dup) (ntd t))
-  | ETd c =>
-      mkT (remove1 conn_eqb c (opened t)) (lastread t) (lastpack t) (stored t) (dpend t) (qpend t) (dok t) (qok t)
-          (wrote t) (forced t) (graceful t) (bad t) (pack_unhandled t) (pack_disorder t) (pack_closed t)
-          (lifecycle_bad t || negb (is_open c t)) (bump_td c (ntd t))
-  | ECall KForce _ =>
-      mkT (opened t) (lastread t) (lastpack t) (stored t) (dpend t) (qpend t) (dok t) (qok t)
-          (wrote t) true (graceful t) (bad t) (pack_unhandled t) (pack_disorder t) (pack_closed t)
-          (lifecycle_bad t) (ntd t)
-  | ECall KStopWait _ =>
-      mkT (opened t) (lastread t) (lastpack t) (stored t) (dpend t) (qpend t) (dok t) (qok t)
-          (wrote t) (forced t) true (bad t) (pack_unhandled t) (pack_disorder t) (pack_closed t)
-          (lifecycle_bad t) (ntd t)
-  | EPanic => set_bad true t
-  | _ => t
-  end.
-
-Definition track (ndst : nat) (l : list ev) : tst := fold_left (tstep ndst) l t0.
-
-(* ---------- C06: the state at the moment StopAndWait returned ---------- *)
-Fixpoint split_at_ret (l pre : list ev) : option (list ev * rcls * snapshot * list ev) :=
-  match l with
-  | [] => None
-  | ERet KStopWait c _ snap :: r => Some (rev pre, c, snap, r)
-  | e :: r => split_at_ret r (e :: pre)
-  end.
+      (lifecycle_bad t) (ntd t) (fnil t).
 
 Definition srcs (n : nat) : list nat := seq 1 n.
 
@@ -211,11 +104,157 @@ Definition drained (v1 slow : bool) (nsrc : nat) (snap : snapshot) (t : tst) : b
        (srcs nsrc)
   && torn_once t.
 
-Definition mon_c06 (v1 slow healthy hung : bool) (nsrc ndst : nat) (l : list ev) : bool :=
+(* what a log is judged against: engine (true = v1), slow store, number of sources and destinations *)
+Record cfg := mkC { c_v1 : bool; c_slow : bool; c_nsrc : nat; c_ndst : nat }.
+
+(* the status a force stop that returned nil may end in: the force-stop failure, or "stopped by the
+   user" when a graceful stop was already under way and completed first *)
+Definition force_status_ok (graceful : bool) (st : status) (force : bool) : bool :=
+  match st with
+  | StDegraded => force
+  | StUserStopped => graceful
+  | _ => false
+  end.
+
+Definition tstep (c : cfg) (t : tst) (e : ev) : tst :=
+  let ndst := c_ndst c in
+  match e with
+  | ERead s k =>
+      (* logged by the plugin just before the hand-off; a failed hand-off is taken back by EUnread *)
+      let ok := Nat.eqb k (S (lookup s (lastread t))) in
+      set_bad (negb ok)
+        (mkT (opened t) (update s k (lastread t)) (lastpack t) (stored t) (dpend t) (qpend t) (dok t) (qok t)
+             (wrote t) (forced t) (graceful t) (bad t) (pack_unhandled t) (pack_disorder t) (pack_closed t)
+             (lifecycle_bad t) (ntd t) (fnil t))
+  | EUnread s k =>
+      set_bad (negb (Nat.eqb k (lookup s (lastread t))) || Nat.eqb k 0)
+        (mkT (opened t) (update s (pred k) (lastread t)) (lastpack t) (stored t) (dpend t) (qpend t) (dok t) (qok t)
+             (wrote t) (forced t) (graceful t) (bad t) (pack_unhandled t) (pack_disorder t) (pack_closed t)
+             (lifecycle_bad t) (ntd t) (fnil t))
+  | EDWrite d s k =>
+      let ok := is_open (CDst d) t && Nat.leb k (lookup s (lastread t)) && Nat.ltb 0 k in
+      set_bad (negb ok)
+        (mkT (opened t) (lastread t) (lastpack t) (stored t) (dpend t ++ [(d, s, k)]) (qpend t) (dok t) (qok t)
+             ((s, k) :: wrote t) (forced t) (graceful t) (bad t) (pack_unhandled t) (pack_disorder t) (pack_closed t)
+             (lifecycle_bad t) (ntd t) (fnil t))
+  | EDConf d s k b =>
+      (* a destination answers its writes in the order it received them *)
+      let ok := opt3_eqb (first_of_d d (dpend t)) (d, s, k) in
+      set_bad (negb ok)
+        (mkT (opened t) (lastread t) (lastpack t) (stored t) (remove1 p3_eqb (d, s, k) (dpend t)) (qpend t)
+             (if b then (d, s, k) :: dok t else dok t) (qok t)
+             (wrote t) (forced t) (graceful t) (bad t) (pack_unhandled t) (pack_disorder t) (pack_closed t)
+             (lifecycle_bad t) (ntd t) (fnil t))
+  | EDUnconf d s k =>
+      mkT (opened t) (lastread t) (lastpack t) (stored t) (dpend t) (qpend t)
+          (remove1 p3_eqb (d, s, k) (dok t)) (qok t)
+          (wrote t) (forced t) (graceful t) (bad t) (pack_unhandled t) (pack_disorder t) (pack_closed t)
+          (lifecycle_bad t) (ntd t) (fnil t)
+  | EQWrite q s k =>
+      let ok := is_open (CDlq q) t && Nat.leb k (lookup s (lastread t)) && Nat.ltb 0 k in
+      set_bad (negb ok)
+        (mkT (opened t) (lastread t) (lastpack t) (stored t) (dpend t) (qpend t ++ [(q, s, k)]) (dok t) (qok t)
+             ((s, k) :: wrote t) (forced t) (graceful t) (bad t) (pack_unhandled t) (pack_disorder t) (pack_closed t)
+             (lifecycle_bad t) (ntd t) (fnil t))
+  | EQConf q s k b =>
+      let ok := opt3_eqb (first_of_d q (qpend t)) (q, s, k) in
+      set_bad (negb ok)
+        (mkT (opened t) (lastread t) (lastpack t) (stored t) (dpend t) (remove1 p3_eqb (q, s, k) (qpend t))
+             (dok t) (if b then (s, k) :: qok t else qok t)
+             (wrote t) (forced t) (graceful t) (bad t) (pack_unhandled t) (pack_disorder t) (pack_closed t)
+             (lifecycle_bad t) (ntd t) (fnil t))
+  | EQUnconf q s k =>
+      mkT (opened t) (lastread t) (lastpack t) (stored t) (dpend t) (qpend t) (dok t)
+          (remove1 p2_eqb (s, k) (qok t))
+          (wrote t) (forced t) (graceful t) (bad t) (pack_unhandled t) (pack_disorder t) (pack_closed t)
+          (lifecycle_bad t) (ntd t) (fnil t)
+  | EPack s k =>
+      (* C02: the position is durable before the plugin hears about it *)
+      (* ... and is handled, in order, and the plugin is still up: the model's delivery rule *)
+      let okacc := Nat.leb k (lookup s (stored t)) && handled ndst t s k
+                   && Nat.eqb k (S (lookup s (lastpack t))) && is_open (CSrc s) t in
+      set_bad (negb okacc)
+        (mkT (opened t) (lastread t) (update s k (lastpack t)) (stored t) (dpend t) (qpend t) (dok t) (qok t)
+             (wrote t) (forced t) (graceful t) (bad t)
+             (pack_unhandled t || negb (handled ndst t s k))
+             (pack_disorder t || negb (Nat.eqb k (S (lookup s (lastpack t)))))
+             (pack_closed t || negb (is_open (CSrc s) t))
+             (lifecycle_bad t) (ntd t) (fnil t))
+  | ECommit snap =>
+      (* positions only move forward, and only onto handled records *)
+      let ok := snap_ge snap (stored t) &&
+                forallb (fun p => Nat.eqb (snd p) 0 || handled ndst t (fst p) (snd p)) snap in
+      set_bad (negb ok)
+        (mkT (opened t) (lastread t) (lastpack t) snap (dpend t) (qpend t) (dok t) (qok t)
+             (wrote t) (forced t) (graceful t) (bad t) (pack_unhandled t) (pack_disorder t) (pack_closed t)
+             (lifecycle_bad t) (ntd t) (fnil t))
+  | EOpen c pos =>
+      (* a processor that runs with several workers is opened once per worker *)
+      let dup := match c with CProc _ _ => false | _ => is_open c t end in
+      let okpos := match c with CSrc s => Nat.eqb pos (lookup s (stored t)) | _ => true end in
+      set_bad (negb okpos)
+        (mkT (c :: opened t)
+             (match c with CSrc s => update s pos (lastread t) | _ => lastread t end)
+             (match c with CSrc s => update s pos (lastpack t) | _ => lastpack t end)
+             (stored t)
+             (match c with CDst d => filter (fun x => negb (Nat.eqb (fst (fst x)) d)) (dpend t) | _ => dpend t end)
+             (match c with CDlq q => filter (fun x => negb (Nat.eqb (fst (fst x)) q)) (qpend t) | _ => qpend t end)
+             (dok t) (qok t)
+             (* a new run of a source starts over above its resume position *)
+             (match c with
+              | CSrc s => filter (fun p => negb (Nat.eqb (fst p) s) || Nat.leb (snd p) pos) (wrote t)
+              | _ => wrote t end)
+             (forced t) (graceful t) (bad t)
+             (pack_unhandled t) (pack_disorder t) (pack_closed t) (lifecycle_bad t || dup) (ntd t) (fnil t))
+  | ETd c =>
+      mkT (remove1 conn_eqb c (opened t)) (lastread t) (lastpack t) (stored t) (dpend t) (qpend t) (dok t) (qok t)
+          (wrote t) (forced t) (graceful t) (bad t) (pack_unhandled t) (pack_disorder t) (pack_closed t)
+          (lifecycle_bad t || negb (is_open c t)) (bump_td c (ntd t)) (fnil t)
+  | ECall KForce _ =>
+      mkT (opened t) (lastread t) (lastpack t) (stored t) (dpend t) (qpend t) (dok t) (qok t)
+          (wrote t) true (graceful t) (bad t) (pack_unhandled t) (pack_disorder t) (pack_closed t)
+          (lifecycle_bad t) (ntd t) (fnil t)
+  | ECall KStopWait _ =>
+      mkT (opened t) (lastread t) (lastpack t) (stored t) (dpend t) (qpend t) (dok t) (qok t)
+          (wrote t) (forced t) true (bad t) (pack_unhandled t) (pack_disorder t) (pack_closed t)
+          (lifecycle_bad t) (ntd t) (fnil t)
+  | ECall KStart _ =>
+      (* a new run: a force stop that found the previous run already ended has nothing left to say *)
+      mkT (opened t) (lastread t) (lastpack t) (stored t) (dpend t) (qpend t) (dok t) (qok t)
+          (wrote t) (forced t) (graceful t) (bad t) (pack_unhandled t) (pack_disorder t) (pack_closed t)
+          (lifecycle_bad t) (ntd t) false
+  | ERet KStopWait RNil _ snap =>
+      (* StopAndWait may return nil only from a drained pipeline (the model's AReturn) *)
+      set_bad (negb (drained (c_v1 c) (c_slow c) (c_nsrc c) snap t)) t
+  | ERet KForce RNil _ _ =>
+      mkT (opened t) (lastread t) (lastpack t) (stored t) (dpend t) (qpend t) (dok t) (qok t)
+          (wrote t) (forced t) (graceful t) (bad t) (pack_unhandled t) (pack_disorder t) (pack_closed t)
+          (lifecycle_bad t) (ntd t) true
+  | EStatus st f =>
+      (* the first status written after a force stop that returned nil *)
+      set_bad (fnil t && negb (force_status_ok (graceful t) st f))
+        (mkT (opened t) (lastread t) (lastpack t) (stored t) (dpend t) (qpend t) (dok t) (qok t)
+             (wrote t) (forced t) (graceful t) (bad t) (pack_unhandled t) (pack_disorder t) (pack_closed t)
+             (lifecycle_bad t) (ntd t) false)
+  | EPanic => set_bad true t
+  | _ => t
+  end.
+
+Definition track (c : cfg) (l : list ev) : tst := fold_left (tstep c) l t0.
+
+(* ---------- C06: the state at the moment StopAndWait returned ---------- *)
+Fixpoint split_at_ret (l pre : list ev) : option (list ev * rcls * snapshot * list ev) :=
+  match l with
+  | [] => None
+  | ERet KStopWait c _ snap :: r => Some (rev pre, c, snap, r)
+  | e :: r => split_at_ret r (e :: pre)
+  end.
+
+Definition mon_c06 (c : cfg) (healthy hung : bool) (l : list ev) : bool :=
   negb hung &&
   match split_at_ret l [] with
   | None => negb healthy                       (* a healthy stop must come back *)
-  | Some (pre, RNil, snap, _) => drained v1 slow nsrc snap (track ndst pre)
+  | Some (pre, RNil, snap, _) => drained (c_v1 c) (c_slow c) (c_nsrc c) snap (track c pre)
   | Some (_, RNotRunning, _, _) => true        (* nothing was running: the property does not speak *)
   | Some (_, _, _, _) => negb healthy          (* a healthy stop must complete without error *)
   end.
@@ -271,14 +310,13 @@ Fixpoint after_restart (l : list ev) : option (snapshot * list ev) :=
 
 (* the next run opens every source at its durable position, which no ack ever overtook and
    below which everything is handled *)
-Definition resume_ok (nsrc ndst : nat) (l : list ev) : bool :=
+Definition resume_ok (c : cfg) (l : list ev) : bool :=
   match after_restart l with
   | None => false
   | Some (snap, rest) =>
-      let t := track ndst l in
       forallb (fun s =>
         existsb (fun e => match e with EOpen (CSrc s') pos => Nat.eqb s s' && Nat.eqb pos (lookup s snap) | _ => false end) rest)
-        (srcs nsrc)
+        (srcs (c_nsrc c))
   end.
 
 Fixpoint packs_below (l : list ev) (snap : snapshot) : bool :=
@@ -289,8 +327,8 @@ Fixpoint packs_below (l : list ev) (snap : snapshot) : bool :=
   | _ :: r => packs_below r snap
   end.
 
-Definition mon_c12 (hung : bool) (nsrc ndst : nat) (l : list ev) : bool :=
-  let t := track ndst l in
+Definition mon_c12 (c : cfg) (hung : bool) (l : list ev) : bool :=
+  let t := track c l in
   negb hung && negb (has_noterm l) &&
   negb (pack_unhandled t) &&                                   (* acks nothing undelivered *)
   match force_ret l with
@@ -301,7 +339,7 @@ Definition mon_c12 (hung : bool) (nsrc ndst : nat) (l : list ev) : bool :=
           (* failed-by-force-stop, no automatic restart *)
           watch rest (last_status_force l false) (graceful t)
           && match after_boot rest with Some r => boot_quiet r | None => false end
-          && resume_ok nsrc ndst l
+          && resume_ok c l
           && match after_restart l with Some (snap, _) => packs_below l snap | None => false end
       end
   | Some _ => true              (* the pipeline was not running when the force stop arrived *)
@@ -309,12 +347,12 @@ Definition mon_c12 (hung : bool) (nsrc ndst : nat) (l : list ev) : bool :=
   end.
 
 (* ---------- the acceptor ---------- *)
-Definition accept (ndst : nat) (l : list ev) : bool := negb (bad (track ndst l)).
+Definition accept (c : cfg) (l : list ev) : bool := negb (bad (track c l)).
 
 Definition chk (c : scase) : nat :=
   match c with
   | SCase PC06 v1 nsrc ndst slow healthy hung evs =>
-      code (accept ndst evs) (mon_c06 v1 slow healthy hung nsrc ndst evs)
+      let c := mkC v1 slow nsrc ndst in code (accept c evs) (mon_c06 c healthy hung evs)
   | SCase PC12 v1 nsrc ndst slow healthy hung evs =>
-      code (accept ndst evs) (mon_c12 hung nsrc ndst evs)
+      let c := mkC v1 slow nsrc ndst in code (accept c evs) (mon_c12 c hung evs)
   end.
